@@ -2,5 +2,5 @@ SPECIFICATION Spec
 CONSTANTS
   Mutant = "none"
   MaxSteps = 4
-INVARIANTS Holds NothingRemembered
+INVARIANTS Holds NothingRemembered OperationUnchanged
 CHECK_DEADLOCK FALSE
